@@ -27,6 +27,11 @@ type poolStep struct {
 	Distinct bool `json:"distinct"` // no interpreter is in the pool twice
 	OK       bool `json:"ok"`       // the command is answered without error
 	ArgvKept bool `json:"argvkept"` // (scripts) ARGV after the calls is the ARGV of this call
+	// (fire steps) what the fence's WHEREEVAL clause sees as ARGV: "" (no fence), "own", "none", "other"
+	Sees    string `json:"sees"`
+	SeesTag int    `json:"seestag"` // "other": tag (step number) of the call whose ARGV it is
+	// [idle, total] after the step under each pool discipline the specification was checked for (first: as coded)
+	Alts [][2]int `json:"alts"`
 }
 
 type poolBehaviour struct {
@@ -36,11 +41,27 @@ type poolBehaviour struct {
 type poolMismatch struct {
 	Behaviour int    `json:"behaviour"`
 	Step      int    `json:"step"`
-	What      string `json:"what"` // pool | reply | argv
+	What      string `json:"what"` // pool | reply | argv | fence (model disagrees) | fence-argv (the clause did not see its own ARGV)
 	Detail    string `json:"detail"`
 }
 
 const poolTrue = "return true"
+
+// the fence's clause: passes exactly when the moving object's field `probe` names what the clause sees as ARGV
+const (
+	poolChan       = "poolchan"
+	poolHookOwn    = "hook-own-argv"
+	poolHookFilter = "if ARGV == nil then return FIELDS.probe == 'none' end return ARGV[1] == FIELDS.probe"
+)
+
+func poolFireScript() string {
+	set := func(probe string) string {
+		return "tile38.call('SET','pk','mov','FIELD','probe'," + probe + ",'POINT','10','10') "
+	}
+	// (a neutral SET before every probe: the fence also reports the SET after a matching one - the object leaves the filter)
+	return "local before = tostring(ARGV[1]) " + set("'reset'") + set("'"+poolHookOwn+"'") + set("'reset'") + set("'none'") + set("'reset'") + set("ARGV[1]") + set("'reset'") + set("ARGV[2]") +
+		"local after = tostring(ARGV and ARGV[1]) return {before, after}"
+}
 
 // one nested search with n WHEREEVAL clauses, optionally rejected while parsing (LIMIT 0 after the clauses)
 func poolNestedScript(n int, bad bool) string {
@@ -62,7 +83,7 @@ func poolArgs(kind string, tag string) ([]string, bool, error) {
 	we := func(n int) []string {
 		var a []string
 		for i := 0; i < n; i++ {
-			a = append(a, "WHEREEVAL", poolTrue, "0")
+			a = append(a, "WHEREEVAL", poolTrue, "1", tag)
 		}
 		return a
 	}
@@ -87,13 +108,25 @@ func poolArgs(kind string, tag string) ([]string, bool, error) {
 		args = cat([]string{"SCAN", "pk"}, we(int(kind[4]-'0')), []string{"LIMIT", "0"})
 	case "scan2syn":
 		// the second clause does not compile
-		args = []string{"SCAN", "pk", "WHEREEVAL", poolTrue, "0", "WHEREEVAL", "return return", "0", "COUNT"}
+		args = []string{"SCAN", "pk", "WHEREEVAL", poolTrue, "1", tag, "WHEREEVAL", "return return", "1", tag, "COUNT"}
 	case "within1", "within2":
 		args = cat([]string{"WITHIN", "pk"}, we(int(kind[6]-'0')), []string{"COUNT", "BOUNDS", "-90", "-180", "90", "180"})
 	case "within1badarea", "within2badarea":
 		args = cat([]string{"WITHIN", "pk"}, we(int(kind[6]-'0')), []string{"COUNT", "BOUNDS", "x"})
 	case "nearby2bad":
 		args = cat([]string{"NEARBY", "pk"}, we(2), []string{"DESC", "POINT", "1", "1"})
+	case "evalshamiss":
+		args = []string{"EVALSHA", "0123456789012345678901234567890123456789", "1", "key-" + tag, tag}
+	case "evalsyntax":
+		args = []string{"EVAL", "return return " + fmt.Sprint(len(tag)), "1", "key-" + tag, tag}
+	case "setchan":
+		args = []string{"SETCHAN", poolChan, "NEARBY", "pk", "WHEREEVAL", poolHookFilter, "1", poolHookOwn, "FENCE", "POINT", "10", "10", "1000"}
+	case "delchan":
+		args = []string{"DELCHAN", poolChan}
+	case "fire":
+		args = nil // three SETs, see poolFire
+	case "evalfire":
+		args, script = []string{"EVAL", poolFireScript(), "0", tag, "nobody"}, true
 	case "nested1", "nested2":
 		args, script = []string{"EVAL", poolNestedScript(int(kind[6]-'0'), false), "0", tag}, true
 	case "nested2bad":
@@ -111,15 +144,20 @@ var (
 	poolAbandonedDirs []string
 )
 
+// poolOne replays one behaviour.  Judged directly on what the real server does (whatever pool discipline it follows):
+// the reply class, no interpreter in the pool twice, a script's ARGV is its own before and after its calls, a fence's
+// clause sees its own ARGV.  The pool accounting (idle / accounted for) must follow, over the whole behaviour, at least
+// one of the disciplines the specification was checked for (Alts: one [idle,total] per discipline).
 func poolOne(bi int, b *poolBehaviour, probe bool) (out []poolMismatch, seen []string, err error) {
 	srv, err := t38.Start(t38.Options{})
 	if err != nil {
 		return nil, nil, err
 	}
-	// a server whose pool disagrees with the specification is not shut down in this process: closing an interpreter
-	// that is in the pool twice panics inside the Lua library and would take the harness (and its verdict) with it
+	// a server whose pool holds an interpreter twice is not shut down in this process: closing it panics inside the
+	// Lua library and would take the harness (and its verdict) with it
+	unsound := false
 	defer func() {
-		if len(out) == 0 {
+		if !unsound {
 			srv.StopAndRemove()
 		} else {
 			poolAbandoned.Lock()
@@ -132,41 +170,178 @@ func poolOne(bi int, b *poolBehaviour, probe bool) (out []poolMismatch, seen []s
 		return nil, nil, err
 	}
 	defer c.Close()
+	sub, err := srv.Dial()
+	if err != nil {
+		return nil, nil, err
+	}
+	defer sub.Close()
+	if _, err := sub.Do("SUBSCRIBE", poolChan); err != nil {
+		return nil, nil, err
+	}
 	for i := 1; i <= 3; i++ {
 		c.Do("SET", "pk", fmt.Sprintf("id%d", i), "FIELD", "n", fmt.Sprint(i), "POINT", fmt.Sprint(i), fmt.Sprint(i))
 	}
+	tagOf := func(n int) string { // the specification's tag of a call -> the argument the harness gave that call
+		if n > 1000 {
+			return fmt.Sprintf("tag-%d-%d-inner", bi, n-1001)
+		}
+		return fmt.Sprintf("tag-%d-%d", bi, n-1)
+	}
+	// which probes the fence published since the last marker
+	collect := func(si int, probes []string) (map[string]bool, error) {
+		marker := fmt.Sprintf("marker-%d-%d", bi, si)
+		if _, err := c.Do("PUBLISH", poolChan, marker); err != nil {
+			return nil, err
+		}
+		got := map[string]bool{}
+		for {
+			v, err := sub.Recv()
+			if err != nil {
+				return nil, fmt.Errorf("subscriber: %v", err)
+			}
+			if len(v.Arr) != 3 {
+				continue
+			}
+			if v.Arr[2].Str == marker {
+				return got, nil
+			}
+			for _, p := range probes {
+				if strings.Contains(v.Arr[2].Str, `"probe":"`+p+`"`) {
+					got[p] = true
+				}
+			}
+		}
+	}
+	hooked := false
+	alive := make([]bool, 0)
 	for si, st := range b.Steps {
 		tag := fmt.Sprintf("tag-%d-%d", bi, si)
 		args, script, err := poolArgs(st.Kind, tag)
 		if err != nil {
 			return nil, nil, err
 		}
-		r, err := c.Do(args...)
-		if err != nil {
+		var r t38.Value
+		third, fourth := tag, "nobody"
+		if st.Kind == "evalfire" && st.Sees == "other" && tagOf(st.SeesTag) != tag {
+			fourth = tagOf(st.SeesTag)
+			args[len(args)-1] = fourth
+		}
+		if st.Kind == "fire" {
+			third = "nobody"
+			if st.Sees == "other" {
+				third = tagOf(st.SeesTag)
+			}
+			for _, p := range []string{"reset", poolHookOwn, "reset", "none", "reset", third} {
+				if r, err = c.Do("SET", "pk", "mov", "FIELD", "probe", p, "POINT", "10", "10"); err != nil {
+					return nil, nil, fmt.Errorf("behaviour %d step %d fire: %v", bi, si, err)
+				}
+			}
+		} else if r, err = c.Do(args...); err != nil {
 			return nil, nil, fmt.Errorf("behaviour %d step %d %v: %v", bi, si, st.Kind, err)
 		}
 		total, idle, distinct := srv.S.VerifLuaPool()
+		sees := ""
+		if st.Kind == "fire" || st.Kind == "evalfire" {
+			got, err := collect(si, []string{poolHookOwn, "none", third, fourth})
+			if err != nil {
+				return nil, nil, fmt.Errorf("behaviour %d step %d %v: %v", bi, si, st.Kind, err)
+			}
+			switch {
+			case len(got) == 0 && !hooked:
+			case len(got) == 1 && got[poolHookOwn]:
+				sees = "own"
+			case len(got) == 1 && got["none"]:
+				sees = "none"
+			case len(got) == 1 && (got[third] || got[fourth]):
+				sees = "other"
+				if got[fourth] {
+					third = fourth
+				}
+			default:
+				sees = fmt.Sprintf("?%v", got)
+			}
+		}
+		if st.Kind == "setchan" && r.Kind != '-' {
+			hooked = true
+		}
+		if st.Kind == "delchan" && r.Kind != '-' {
+			hooked = false
+		}
 		if probe {
-			seen = append(seen, fmt.Sprintf("%s ok=%v total=%d idle=%d distinct=%d reply=%.80s", st.Kind, r.Kind != '-', total, idle, distinct, r.String()))
+			seen = append(seen, fmt.Sprintf("%s ok=%v total=%d idle=%d distinct=%d sees=%s reply=%.80s", st.Kind, r.Kind != '-', total, idle, distinct, sees, r.String()))
 			continue
 		}
 		if (r.Kind != '-') != st.OK {
 			out = append(out, poolMismatch{bi, si, "reply", fmt.Sprintf("%s answered %.120s, specification: ok=%v", st.Kind, r.String(), st.OK)})
 		}
-		if idle != st.Idle || total != st.Total || (distinct == idle) != st.Distinct {
-			out = append(out, poolMismatch{bi, si, "pool", fmt.Sprintf("after %s the interpreter pool holds %d idle interpreters (%d distinct), %d accounted for; "+
-				"specification: %d idle, all distinct=%v, %d accounted for", st.Kind, idle, distinct, total, st.Idle, st.Distinct, st.Total)})
+		if distinct != idle {
+			unsound = true
+			out = append(out, poolMismatch{bi, si, "pool", fmt.Sprintf("after %s the interpreter pool holds %d idle interpreters but only %d distinct ones "+
+				"(%d accounted for): an interpreter is in the pool twice", st.Kind, idle, distinct, total)})
+		}
+		// an idle interpreter holds no call's globals
+		dirty := false
+		for _, names := range srv.S.VerifLuaGlobals() {
+			for _, nm := range names {
+				if dirty {
+					break
+				}
+				for _, g := range []string{"KEYS", "ARGV", "DEADLINE", "EVAL_CMD"} {
+					if strings.HasPrefix(nm, g+":") {
+						out = append(out, poolMismatch{bi, si, "globals", fmt.Sprintf("after %s an interpreter in the pool still has the global %s of a call "+
+							"(the next user of the interpreter reads it)", st.Kind, nm)})
+						dirty = true
+						break
+					}
+				}
+			}
 		}
 		if script && r.Kind == '*' && len(r.Arr) == 2 {
-			kept := r.Arr[0].Str == tag && r.Arr[1].Str == tag
-			if kept != st.ArgvKept {
-				out = append(out, poolMismatch{bi, si, "argv", fmt.Sprintf("%s: ARGV[1] before the calls %q, after %q, this call's argument %q; specification: kept=%v",
-					st.Kind, r.Arr[0].Str, r.Arr[1].Str, tag, st.ArgvKept)})
+			if r.Arr[0].Str != tag || r.Arr[1].Str != tag {
+				out = append(out, poolMismatch{bi, si, "argv", fmt.Sprintf("%s: ARGV[1] before the calls %q, after %q, this call's argument %q",
+					st.Kind, r.Arr[0].Str, r.Arr[1].Str, tag)})
 			}
 		} else if script && st.OK {
 			out = append(out, poolMismatch{bi, si, "reply", fmt.Sprintf("%s: unexpected script reply %.120s", st.Kind, r.String())})
 		}
-		if len(out) > 0 {
+		if sees != "" && sees != "own" {
+			what := sees
+			if strings.HasPrefix(what, "?") {
+				what = "unknown"
+			}
+			saw := sees
+			switch sees {
+			case "none":
+				saw = "nil"
+			case "other":
+				saw = "the ARGV of the call given " + third
+			}
+			out = append(out, poolMismatch{bi, si, "fence-argv-" + what, fmt.Sprintf("%s: the fence's WHEREEVAL clause (own ARGV[1] %q) was evaluated with ARGV = %s "+
+				"(specification as coded: %s)", st.Kind, poolHookOwn, saw, st.Sees)})
+		}
+		// accounting: drop the disciplines that disagree
+		if len(st.Alts) == 0 {
+			st.Alts = [][2]int{{st.Idle, st.Total}}
+		}
+		if si == 0 {
+			alive = make([]bool, len(st.Alts))
+			for i := range alive {
+				alive[i] = true
+			}
+		}
+		any := false
+		for i, a := range st.Alts {
+			if i < len(alive) && alive[i] && a[0] == idle && a[1] == total {
+				any = true
+			} else if i < len(alive) {
+				alive[i] = false
+			}
+		}
+		if !any && !unsound {
+			out = append(out, poolMismatch{bi, si, "accounting", fmt.Sprintf("after %s: %d idle, %d accounted for - no checked pool discipline "+
+				"explains the counts of this behaviour (as coded: %d idle, %d accounted for)", st.Kind, idle, total, st.Idle, st.Total)})
+		}
+		if unsound || !any || dirty {
 			break
 		}
 	}
@@ -178,7 +353,23 @@ func poolReplay(args []string) int {
 	in := fs.String("in", "", "behaviours (NDJSON)")
 	par := fs.Int("par", 8, "parallel servers")
 	probe := fs.Bool("probe", false, "print what the real server does instead of comparing")
+	ini := fs.Bool("ini", false, "report the number of interpreters a fresh server's pool holds")
 	fs.Parse(args)
+	if *ini {
+		srv, err := t38.Start(t38.Options{})
+		if err != nil {
+			fmt.Fprintln(os.Stderr, "harness error:", err)
+			return 2
+		}
+		total, idle, distinct := srv.S.VerifLuaPool()
+		srv.StopAndRemove()
+		if total != idle || distinct != idle {
+			fmt.Fprintf(os.Stderr, "harness error: a fresh pool has %d interpreters, %d idle, %d distinct\n", total, idle, distinct)
+			return 2
+		}
+		emit(map[string]interface{}{"ini": idle})
+		return 0
+	}
 	f, err := os.Open(*in)
 	if err != nil {
 		fmt.Fprintln(os.Stderr, err)
